@@ -15,11 +15,16 @@ def gen_descs(g, tier):
     q = tier == "quick"
     out = []
     import itertools
+    # systematic: both classes x every subset (random order) + ALL coordinates in reversed and rotated order
     for D in (1, 2, 3) if q else (1, 2, 3, 4):
-        for k in range(1, D + 1):
-            for sub in itertools.combinations(range(D), k):
-                idx = list(sub); g.shuffle(idx)
-                out.append(lin.gen_scn(g, "marginal", R=g.randint(1, 4), D=D, idx=idx, diag=bool(g.randint(0, 3) == 0)))
+        for diag in (False, True):
+            for k in range(1, D + 1):
+                for sub in itertools.combinations(range(D), k):
+                    idx = list(sub); g.shuffle(idx)
+                    out.append(lin.gen_scn(g, "marginal", R=g.randint(1, 4), D=D, idx=idx, diag=diag))
+            if D > 1:
+                for idx in {tuple(reversed(range(D))), tuple(list(range(1, D)) + [0])}:
+                    out.append(lin.gen_scn(g, "marginal", R=g.randint(1, 3), D=D, idx=list(idx), diag=diag))
     for _ in range(12 if q else 300):
         D = g.randint(4, 6)
         out.append(lin.gen_scn(g, "marginal", R=g.randint(1, 3), D=D, diag=bool(g.randint(0, 3) == 0)))
